@@ -19,7 +19,7 @@ MODULE = 'SshAudit.Props.C10'
 NAMESPACE = 'SshAudit.C10'
 THEOREMS = ['byte_rt', 'byte_overflow', 'bool_rt', 'u32_rt', 'u32_overflow', 'string_rt', 'namelist_rt', 'namelist_empty',
             'createMpint_signed', 'mpint2_rt', 'createMpintU_eq', 'mpint1_rt', 'writeMpint1Z_nat', 'mpint1_negative_not_rt',
-            'kexinit_rt', 'padLen_bounds', 'frame_eq', 'frame_wf', 'frame_read_back', 'frame_rfc', 'crc_fold', 'crc_table_eq_spec']
+            'kexinit_rt', 'padLen_bounds', 'frame_eq', 'frame_wf', 'frame_read_back', 'frame_rfc', 'crc_fold', 'crc_table_eq_spec', 'crcCalc_lt', 'frame1_read_back']
 TECHNIQUE = 'Lean 4 theorems (induction, omega, kernel-evaluated 256-entry CRC table) over a hand-written codec model + differential correspondence with the Python codecs'
 LEVEL_TEXT = ('Round-trip, framing and CRC statements are proved for every value and every byte string (unbounded) about the Lean model of the '
               'buffer classes; the model is executed by a compiled driver and compared op-by-op with the real ReadBuf/WriteBuf/SSH_Socket/'
@@ -162,6 +162,16 @@ def impl(op, arg):
         import io, contextlib
         with contextlib.redirect_stdout(io.StringIO()):
             return guard(run)
+    if op == 'readpacket1':
+        def run1():
+            s, fs, _ = mk_socket(arg)
+            t, p = s.read_packet(1)
+            if t < 0:
+                return None
+            return [t, p.hex(), s.read(s.unread_len).hex()]
+        import io, contextlib
+        with contextlib.redirect_stdout(io.StringIO()):
+            return guard(run1)
     if op == 'crc':
         return guard(lambda: SSH1.crc32(arg))
     if op == 'kex.parse':
@@ -375,6 +385,21 @@ def build_cases(ctx):
         pad = r.choice([0, 3, 4, 7, 11, 12, 255, r.getrandbits(8)])
         body = bytes(r.getrandbits(8) for _ in range(r.choice([0, 1, plen % 100, max(0, plen - 1) % 100, r.randint(0, 90)])))
         cases.append(('readpacket', struct.pack('>IB', plen, pad) + body, ['readpacket-arbitrary']))
+    # SSH-1 packets: every data length 0..80 (all eight residues of the length field, several times), random padding bytes, larger ones, then damaged ones
+    for L in list(range(0, 81)) + [r.randint(81, 3000) for _ in range(ctx.scale(40, 1500))]:
+        data = bytes(r.getrandbits(8) for _ in range(L))
+        t = r.choice([2, 1, 0, 255, r.getrandbits(8)])
+        plen = L + 5
+        pad = bytes(r.getrandbits(8) for _ in range(8 - plen % 8)) if r.random() < 0.5 else None
+        pk = ssh1_frame(t, data, pad)
+        cases.append(('readpacket1', pk + r.choice([b'', b'\x77', b'\x00\x00\x00\x05']), ['ssh1-packet-valid', 'ssh1-len-mod8-%d' % (plen % 8)]))
+        if r.random() < 0.5:
+            b = bytearray(pk)
+            i = r.randrange(len(b))
+            b[i] ^= 1 << r.randrange(8)
+            cases.append(('readpacket1', bytes(b), ['ssh1-packet-damaged']))
+        if r.random() < 0.3:
+            cases.append(('readpacket1', pk[:r.randrange(len(pk))], ['ssh1-packet-truncated']))
     for _ in range(ctx.scale(300, 6000)):
         cases.append(('crc', bytes(r.getrandbits(8) for _ in range(r.choice([0, 1, 2, 3, 8, 9, 100, r.randint(0, 400)]))), ['crc']))
     for _ in range(ctx.scale(300, 8000)):
@@ -404,6 +429,31 @@ def rfc_decode(b):
     if len(b) != 4 + plen or len(b) % 8 != 0 or pad < 4 or plen < pad + 1:
         return None
     return b[5:5 + plen - pad - 1]
+
+
+def ssh1_frame(t, data, pad=None):
+    """Independent protocol-1.5 packet encoder (oracle side): length = type + data + CRC; 8 - length % 8 bytes of padding (8 when the
+    length is a multiple of 8); CRC-32 (zlib's polynomial, zero initial value, no final xor) over padding + type + data."""
+    body = bytes([t]) + data
+    plen = len(body) + 4
+    if pad is None:
+        pad = b'\x00' * (8 - plen % 8)
+    crc = zlib.crc32(pad + body, 0xffffffff) ^ 0xffffffff
+    return struct.pack('>I', plen) + pad + body + struct.pack('>I', crc)
+
+
+def ssh1_decode(b):
+    """Independent protocol-1.5 decoder: (type, data, rest) for a complete well-formed packet at the head of b, else None."""
+    if len(b) < 4:
+        return None
+    plen = struct.unpack('>I', b[:4])[0]
+    padl = 8 - plen % 8
+    if plen < 5 or len(b) < 4 + padl + plen:
+        return None
+    pad, body, crc = b[4:4 + padl], b[4 + padl:4 + padl + plen - 4], b[4 + padl + plen - 4:4 + padl + plen]
+    if struct.unpack('>I', crc)[0] != (zlib.crc32(pad + body, 0xffffffff) ^ 0xffffffff):
+        return None
+    return body[0], body[1:], b[4 + padl + plen:]
 
 
 def twos_complement(n):
@@ -453,6 +503,10 @@ def oracle(op, arg, res, fail):
             back = impl('readpacket', fr + b'\x77')
             if back != {'ok': [arg[0], arg[1:].hex(), '77']}:
                 fail('frame_not_read_back', op, arg, back, 'own reader returns the payload')
+    elif op == 'readpacket1':
+        want = ssh1_decode(arg)
+        if want is not None and res['ok'] != [want[0], want[1].hex(), want[2].hex()]:
+            fail('ssh1_packet_not_read_back', op, arg, res['ok'], {'type': want[0], 'data': want[1].hex(), 'rest': want[2].hex()})
     elif op == 'crc':
         if res['ok'] != (zlib.crc32(arg, 0xffffffff) ^ 0xffffffff):
             fail('crc_mismatch', op, arg, res['ok'], 'CRC-32 (poly 0xEDB88320, init 0, no final xor)')
